@@ -140,7 +140,12 @@ def a123(run, mod, fn, L):
     for p in top:
         P = "path" if p.env.get("path") is None else paths.text(p.env["path"])
         if p.truth("path is None") is True:
-            run.ob("A3", P == "Path(PathNode(PATH_NODE_ROOT_NAME))", "the default path is the decoder's root path",
+            if P == "ROOT_PATH":   # the shared constant: must be the same root path by definition
+                pm_ = L.m.project.module("tpmstream.common.path") if hasattr(L.m, "project") else None
+                rdef = [s_ for s_ in (pm_.tree.body if pm_ is not None else []) if isinstance(s_, ast.Assign) and norm(s_.targets[0]) == "ROOT_PATH"]
+                if not (len(rdef) == 1 and norm(rdef[0].value) == "Path(PathNode(PATH_NODE_ROOT_NAME))"):
+                    P = f"ROOT_PATH (defined as {norm(rdef[0].value) if rdef else '?'})"
+            run.ob("A3", P in ("Path(PathNode(PATH_NODE_ROOT_NAME))", "ROOT_PATH"), "the default path is the decoder's root path",
                    f"default path is `{P}`", module=mod, node=fn, func=fn.name, construct="obj_to_events default path")
         fx = p.effect_texts()
         not_dc = any(a.startswith("try@") and "TypeError" in a for a, v, _ in p.cond)
@@ -230,14 +235,16 @@ def a123(run, mod, fn, L):
     return names, prefixes.pop()
 
 
-def decided(run, rule, mod, fn, spec, default, construct, what, values=None, atoms_needed=()):
+def decided(run, rule, mod, fn, spec, default, construct, what, values=None, atoms_needed=(), implies=()):
     """every path of fn returns what the decision list says (values: outcome name -> expected return text)"""
     ps = paths.summarise(mod, fn)
     for p in ps:
         if p.end == "raise":
             continue
         got = p.value_text() if p.end == "return" else f"<{p.end}>"
-        want = paths.decide(spec, default, p)
+        want = paths.decide(spec, default, p, implies)
+        if not want:
+            continue  # contradicts a known implication between the atoms
         run.ob(rule, want == {got}, f"{fn.name} [{label(p)}]: {got[:60]}", f"{what}: returns `{got}` where {sorted(want)} is required",
                module=mod, node=p.node or fn, func=fn.name, construct=construct)
     return ps
@@ -383,7 +390,9 @@ def a4(run, project, mod, roles):
     Dv, Tv, Fv, Lv = f"isinstance({v}, dict)", f"truthy {v}", "fields(tpm_type)", f"isinstance({v}, list)"
     spec = [({Dv: True, Tv: False, Fv: True}, "None"), ({Dv: True}, f"_dict_to_obj(tpm_type, {v}, command_code=command_code)"),
             ({Lv: True}, f"_list_to_obj(tpm_type, {v})")]
-    decided(run, "A4", mod, to, spec, v, "_to_obj dispatch", "dict nodes become objects, list nodes lists, leaves stay")
+    # (a value is not a dict and a list at once)
+    decided(run, "A4", mod, to, spec, v, "_to_obj dispatch", "dict nodes become objects, list nodes lists, leaves stay",
+            implies=[((Dv, True), (Lv, False)), ((Lv, True), (Dv, False))])
 
 
 def a5(run, mod, roles):
